@@ -147,7 +147,12 @@ func (g *Grammar) GoBuildFunc(prefix, fname string, unions []Union) string {
 		}
 		fmt.Fprintf(&sb, "\t\tparticiple.Union[%s](%s),\n", UnionName(prefix, u), strings.Join(ms, ", "))
 	}
-	sb.WriteString("\t)\n\tif err != nil {\n\t\treturn \"\", err\n\t}\n\treturn p.String(), nil\n}\n")
+	sb.WriteString("\t)\n\tif err != nil {\n\t\treturn \"\", err\n\t}\n")
+	// what the grammar's parser prints does not depend on parsers derived from it for inner productions
+	sb.WriteString("\ts1 := p.String()\n")
+	fmt.Fprintf(&sb, "\tif sp, err := participle.ParserForProduction[%s](p); err == nil {\n\t\t_ = sp.String()\n\t}\n", ProdName(prefix, len(g.Prods)-1))
+	sb.WriteString("\tif s2 := p.String(); s2 != s1 {\n\t\treturn s1 + \"\\n\\nVERIF-STRING-CHANGED after ParserForProduction:\\n\" + s2, nil\n\t}\n")
+	sb.WriteString("\treturn s1, nil\n}\n")
 	return sb.String()
 }
 
